@@ -25,12 +25,15 @@ def plan(tier, seed):
             qs.append(leak(colorder_query('C10', 2, pat, sym), 'C17'))
     # illegal-argument returns retain nothing (same queries as C15: live_blocks == 0 is one of their assertions)
     qs += [leak(arg_query('C15', r, p), 'C17') for r in ROUT for p in 'dz']
+    # worker loop: per-thread work storage is given back exactly once on every non-memory-error return (incl. singular)
+    from props.C06 import thr_query
+    qs.append(thr_query('C17', 6, 2))
     return qs
 
 META = {
     'level': 'model_checking',
     'engines': 'E1: cbmc 6.11 bit-precise; USER_MALLOC/USER_FREE (the library\'s own override points) routed to counting wrappers',
-    'bounds': {'routines': 'get_perm_c (options 0..2), sp_colorder (+sp_coletree/sp_symetree/TreePostorder/qrnzcnt/cholnzcnt), and the illegal-argument returns of both drivers and six computational routines',
+    'bounds': {'worker loop': 'as C06: work storage requested once and given back once on every return without memory error, any hand-out order, any singular columns', 'routines': 'get_perm_c (options 0..2), sp_colorder (+sp_coletree/sp_symetree/TreePostorder/qrnzcnt/cholnzcnt), and the illegal-argument returns of both drivers and six computational routines',
                'inputs': 'm,n<=2 all patterns, 3x3 sampled (thorough: all); symbolic input permutation for sp_colorder; whole symbolic argument records'},
     'outside': ['thread and file handles (OS facts)', 'the drivers\' successful / singular / out-of-memory returns (allocator stubs would hide the real allocation sites there)', 'COLAMD'],
     'assumptions': ['balance zero per call implies no growth over any call sequence'],
